@@ -18,6 +18,20 @@ NEEDS = {
  "C06-b5": "a connection converted to float64, non-dyadic step time, tolerance below 1e-7: the bounded selector is rounded to float32",
  "C07-a5": "EventReducer(initial='inf'/'nan') with a multi-step duration, fresh storage, fewer observations than slots: views / dump of the unobserved history",
  "C07-b5": "trace_cumulative / exp_trace_cumulative called directly with bool or integer observations, an event on the very first step, amplitude != 1",
+ "C08-a5": "MSTDP with a per-sample reward tensor whose entries all share one sign (always so at batch size 1) in Hebbian / anti-Hebbian / depressive-only mode",
+ "C08-b5": "LinearLateral cell with connection delays > 0 and more than one neuron, in both trainer delay modes (square shapes broadcast silently)",
+ "C09-a5": "Accumulator.upperbound(fn, 0.0): an upper limit of exactly 0.0 is treated as no bound (truthiness)",
+ "C09-b5": "MSTDPET on a LinearDense / Conv2D cell with a per-sample reward tensor and batch > 1 (broadcast hard-codes one trailing dimension)",
+ "C10-a5": "half bounds set, then an update made only of depressing parts: the depressing part goes through the upper bounding function",
+ "C10-b5": "a float64 model: contributed parts are rounded to float32 before they are stored",
+ "C11-a5": "ALIF / GLIF2 with a learned adaptation assigned through the property and batch size exactly equal to the group's leading dimension",
+ "C11-b5": "DelayAdjustedMSTDP with a per-sample tensor signal, batch > 1 and a connection whose weight is not 2-D (LinearDirect, Conv2D)",
+ "C12-a5": "a multi-slot ring buffer whose write position is exactly 0 at the checkpoint (falsy extras are not saved) and a target at another position",
+ "C12-b5": "LIF / GLIF1 in a .double() model: the target is clear()ed right before the load, so its buffers are float32 and round the checkpoint",
+ "C13-a5": "a record with duration 0 and inclusive False (one slot), then any assignment to dt: recordsz becomes 0",
+ "C13-b5": "initialised bool / integer / half-precision storage and a growing resize (padding in the default dtype promotes the storage)",
+ "C14-a5": "reducer at duration 0 (the default): assign dt, then assign a duration > 0 (the record's own dt went stale)",
+ "C14-b5": "batchsz / delay increased on a synapse: the boolean spike_ history silently becomes float32 (same slip as C13-b5)",
 }
 for k, v in NEEDS.items():
     mp = f"/verif/seeded/{k}/meta.json"
